@@ -85,3 +85,12 @@ Definition fetches (p : node * node) (e : event) : bool :=
 (* a round: only Fetch events, and every ordered adjacent pair occurs at least once *)
 Definition is_round (g : graph) (evs : list event) : bool :=
   forallb is_fetch evs && forallb (fun p => existsb (fetches p) evs) (all_pairs g).
+
+(* the largest hop distance below INF (a diameter bound for the rounds needed) *)
+Definition maxdist (g : graph) : nat :=
+  list_max (flat_map (fun i => map (fun d => match distb g i d with Some m => m | None => O end) (map fst g))
+                     (map fst g)).
+
+(* histories in which nothing is ever lost: routers start, neighbours appear, advertisements are fetched *)
+Definition is_growth (e : event) : bool :=
+  match e with Fetch _ _ | NbrUp _ _ | RouterUp _ => true | _ => false end.
